@@ -6,9 +6,12 @@ import (
 	"fmt"
 	"sort"
 	"testing"
+	"time"
 
 	"github.com/wmnsk/go-pfcp/message"
 	"pgregory.net/rapid"
+
+	upfreport "github.com/free5gc/go-upf/internal/report"
 
 	"github.com/free5gc/go-upf/internal/verif/stack"
 	"github.com/free5gc/go-upf/internal/verif/vcore"
@@ -33,9 +36,13 @@ type Ev struct {
 type Case struct {
 	Est []stack.RuleOp `json:"est"`
 	Evs []Ev           `json:"evs"`
+	// Quiet lists URR ids for which the data plane answers a removal without a usage report
+	// (the no-op driver never returns one): then there is no final usage to hand on.
+	Quiet []uint32 `json:"quiet,omitempty"`
 }
 
 type model struct {
+	quiet map[uint32]bool
 	urr map[uint32]bool
 	pdr map[uint32]map[uint32]bool
 	// via[pdr][urr] = "create" | "update": how the association came about
@@ -110,7 +117,9 @@ func (m *model) apply(rules []stack.RuleOp, stt *stats) (termr, immer map[uint32
 	m.noteShared()
 	for _, ru := range rules {
 		if ru.Kind == "URR" && ru.Verb == "remove" && m.urr[ru.ID] {
-			termr[ru.ID]++
+			if !m.quiet[ru.ID] {
+				termr[ru.ID]++
+			}
 			delete(m.urr, ru.ID)
 		}
 	}
@@ -171,11 +180,16 @@ func (m *model) noteShared() {
 
 // sharedOnce: the URR was at some time referenced by >= 2 PDRs
 func newModel() *model {
-	return &model{urr: map[uint32]bool{}, pdr: map[uint32]map[uint32]bool{}, via: map[uint32]map[uint32]string{}, sharedOnce: map[uint32]bool{}}
+	return &model{quiet: map[uint32]bool{}, urr: map[uint32]bool{}, pdr: map[uint32]map[uint32]bool{}, via: map[uint32]map[uint32]string{}, sharedOnce: map[uint32]bool{}}
 }
 
 func gen(t *rapid.T) Case {
 	var c Case
+	for u := uint32(1); u <= 4; u++ {
+		if rapid.IntRange(0, 4).Draw(t, "quiet") == 0 {
+			c.Quiet = append(c.Quiet, u)
+		}
+	}
 	urr := map[uint32]bool{}
 	pdr := map[uint32]map[uint32]bool{}
 	named := func(u uint32) bool {
@@ -220,14 +234,15 @@ func gen(t *rapid.T) Case {
 	n := rapid.IntRange(1, 20).Draw(t, "n")
 	for i := 0; i < n; i++ {
 		var rules []stack.RuleOp
-		touched := map[uint32]bool{} // URRs touched by a report-causing IE in this message
+		urrOp := map[uint32]bool{}   // URRs named by a Create/Remove/Query URR IE of this message
+		touched := map[uint32]bool{} // URRs that may get a report through this message (at most one cause each)
 		touchedP := map[uint32]bool{}
 		nr := rapid.IntRange(1, 4).Draw(t, "nrules")
 		for j := 0; j < nr; j++ {
-			switch rapid.SampledFrom([]string{"createurr", "removeurr", "query", "createpdr", "removepdr", "updatepdr", "updatepdr", "updatepdr"}).Draw(t, "rule") {
-			case "createurr":
+			switch rapid.SampledFrom([]string{"createurr", "createurr+pdr", "removeurr", "query", "createpdr", "removepdr", "updatepdr", "updatepdr", "updatepdr"}).Draw(t, "rule") {
+			case "createurr", "createurr+pdr":
 				u := uint32(rapid.IntRange(1, 4).Draw(t, "urr"))
-				if urr[u] || touched[u] {
+				if urr[u] || urrOp[u] || touched[u] {
 					continue
 				}
 				if named(u) {
@@ -235,28 +250,29 @@ func gen(t *rapid.T) Case {
 					continue
 				}
 				urr[u] = true
-				touched[u] = true
+				urrOp[u] = true
 				rules = append(rules, stack.RuleOp{Verb: "create", Kind: "URR", ID: u, Method: 2, Trig: 2})
 			case "removeurr":
 				u := uint32(rapid.IntRange(1, 4).Draw(t, "urr"))
-				if !urr[u] || touched[u] {
+				if !urr[u] || urrOp[u] || touched[u] {
 					continue
 				}
 				delete(urr, u)
-				touched[u] = true
+				urrOp[u], touched[u] = true, true
 				rules = append(rules, stack.RuleOp{Verb: "remove", Kind: "URR", ID: u})
 			case "query":
 				u := uint32(rapid.IntRange(1, 4).Draw(t, "urr"))
-				if !urr[u] || touched[u] {
+				if !urr[u] || urrOp[u] || touched[u] {
 					continue
 				}
-				touched[u] = true
+				urrOp[u], touched[u] = true, true
 				rules = append(rules, stack.RuleOp{Verb: "query", Kind: "URR", ID: u})
 			case "createpdr":
 				p := uint32(rapid.IntRange(1, 4).Draw(t, "pdr"))
 				if _, ok := pdr[p]; ok || touchedP[p] {
 					continue
 				}
+				// may name URRs created by this very message (the UPF creates URRs before PDRs)
 				l := pickURRs(false)
 				okl := true
 				for _, u := range l {
@@ -379,6 +395,16 @@ func show(m map[uint32]int) string {
 
 func run(c Case) (v *vcore.Violation, stt stats) {
 	d := stack.NewModelDriver()
+	quiet := map[uint32]bool{}
+	for _, q := range c.Quiet {
+		quiet[q] = true
+	}
+	d.ReportFor = func(op string, seid uint64, urrid uint32) []upfreport.USAReport {
+		if op == "remove" && quiet[urrid] {
+			return nil
+		}
+		return []upfreport.USAReport{{URRID: urrid, StartTime: time.Unix(1700000000, 0), EndTime: time.Unix(1700000100, 0)}}
+	}
 	st, err := stack.New(stack.Opts{Driver: d, Nodes: 1})
 	if err != nil {
 		panic(fmt.Sprintf("infrastructure: %v", err))
@@ -393,6 +419,7 @@ func run(c Case) (v *vcore.Violation, stt stats) {
 	}()
 	r := stack.NewRunner(st, d)
 	m := newModel()
+	m.quiet = quiet
 	if o := r.Step(stack.Op{Kind: "assoc", Peer: 0, Node: 0, Sess: -1}); o.Dead != nil {
 		return vcore.Violatef(o.Dead.Key, "prefix"), stt
 	}
@@ -441,7 +468,9 @@ func run(c Case) (v *vcore.Violation, stt stats) {
 		case "del":
 			want := map[uint32]int{}
 			for u := range m.urr {
-				want[u] = 1
+				if !m.quiet[u] {
+					want[u] = 1
+				}
 			}
 			o := r.Step(stack.Op{Kind: "del", Peer: 0, Sess: 0})
 			if o.Dead != nil {
@@ -506,7 +535,7 @@ func report(t vcore.Failer, c Case, v *vcore.Violation) {
 	}
 	key := v.Key
 	c.Evs = vcore.MinimizeSlice(c.Evs, func(evs []Ev) bool {
-		x, _ := run(Case{Est: c.Est, Evs: evs})
+		x, _ := run(Case{Est: c.Est, Evs: evs, Quiet: c.Quiet})
 		return x != nil && x.Key == key
 	}, 300)
 	if x, _ := run(c); x != nil {
